@@ -66,7 +66,7 @@ fn scenarios_for(prop: &str) -> Option<(Vec<Box<dyn Scenario>>, Report)> {
             ),
         )),
         "C08" => Some((
-            vec![Box::new(c08::History { faults: false }), Box::new(c08::History { faults: true })],
+            vec![Box::new(c08::History { faults: false }), Box::new(c08::History { faults: true }), Box::new(c08::MulChain)],
             base(
                 "C08",
                 "exploration",
@@ -140,6 +140,7 @@ fn scenarios_for(prop: &str) -> Option<(Vec<Box<dyn Scenario>>, Report)> {
             v.push(frac(Box::new(c12::Pool), 2));
             v.push(frac(Box::new(c08::History { faults: false }), 2));
             v.push(frac(Box::new(c08::History { faults: true }), 2));
+            v.push(frac(Box::new(c08::MulChain), 2));
             Some((
                 v,
                 base(
